@@ -450,6 +450,11 @@ func (ps *PathState) decide(c sym) bool {
 		case 2, 3: // implied by the path condition when first explored
 			ps.decided[c.t] = d == 3
 			return d == 3
+		case 4, 5: // side whose feasibility the solver could not decide
+			ps.pcUnknown = true
+			ps.take(c, d == 5)
+			ps.mValid = false
+			return d == 5
 		}
 		ps.take(c, d == 1)
 		ps.mValid = false
@@ -486,13 +491,13 @@ func (ps *PathState) decide(c sym) bool {
 					}
 					return v
 				}
-				if r == "unknown" {
-					ps.Inconcl++
-					ps.pcUnknown = true
-				}
 				var me, alt int32 = 1, 0
 				if !v {
 					me, alt = 0, 1
+				}
+				if r == "unknown" {
+					ps.Inconcl++
+					alt += 4
 				}
 				ps.Alts = append(ps.Alts, append(append([]int32{}, ps.Trace...), alt))
 				ps.record(me)
@@ -529,7 +534,11 @@ func (ps *PathState) decide(c sym) bool {
 		ps.pcUnknown = true
 	}
 	// both (possibly) feasible: fork
-	alt := append(append([]int32{}, ps.Trace...), 0)
+	var altv int32
+	if rf == "unknown" {
+		altv = 4
+	}
+	alt := append(append([]int32{}, ps.Trace...), altv)
 	ps.Alts = append(ps.Alts, alt)
 	ps.record(1)
 	ps.take(c, true)
